@@ -8,7 +8,7 @@ use proptest::prelude::*;
 use serde_json::{json, Value};
 use unic_locale::{LanguageIdentifier, Locale};
 
-pub const RULE: &str = "Domain: the product {und,en,fr} x {-,Latn,Cyrl} x {-,US,GB} x {[],[a],[b],[a,b]} = 108 identifiers, squared, x 4 flag pairs (exhaustive) for LanguageIdentifier::matches; the same with {no extension, -u-, -t-, -x- on self, -x- on other, -x- on both} for Locale::matches and for LanguageIdentifier::matches(&Locale); Language::matches on 3 x 3 x 4; proptest pairs of G2 locales including self pairs and one-field-apart pairs. Oracle: the statement's formula evaluated field-wise on the getters' content (equal, or the side flagged as range is empty there); derived laws checked on the library alone (flags false/false <=> ==, symmetry under swapping operands with their flags, reflexivity, monotonicity in each flag); Locale: false if either side has private tags, else the id result regardless of -u-/-t-. Every pair is also evaluated with extensions.other filled by hand on one / both sides (not private use: the id result is expected). Cold start: 1500 | 8000 pairs of identifiers built through the raw constructors are matched as the first library call of a fresh child process each. Non-trivial = the two sides differ in >= 1 field and the result is not the same for all four flag pairs, or a private-use rule case. Distinctness: exhaustive product by construction; generated pairs via a hash set.";
+pub const RULE: &str = "Domain: the product {und,en,fr} x {-,Latn,Cyrl} x {-,US,GB} x {[],[a],[b],[a,b]} = 108 identifiers, squared, x 4 flag pairs (exhaustive) for LanguageIdentifier::matches; the same with {no extension, -u-, -t-, -x- on self, -x- on other, -x- on both} for Locale::matches and for LanguageIdentifier::matches(&Locale); Language::matches on 3 x 3 x 4; proptest pairs of G2 locales including self pairs and one-field-apart pairs. Oracle: the statement's formula evaluated field-wise on the getters' content (equal, or the side flagged as range is empty there); derived laws checked on the library alone (flags false/false <=> ==, symmetry under swapping operands with their flags, reflexivity, monotonicity in each flag); Locale: false if either side has private tags, else the id result regardless of -u-/-t-. Every pair is also evaluated with extensions.other filled by hand on one / both sides (not private use: the id result is expected). The mirrored call with the same flags follows every forward call; all pairs of identifiers with 0-257 variants (every count next to a power of two). Cold start: 1500 | 8000 pairs of identifiers built through the raw constructors are matched as the first library call of a fresh child process each. Non-trivial = the two sides differ in >= 1 field and the result is not the same for all four flag pairs, or a private-use rule case. Distinctness: exhaustive product by construction; generated pairs via a hash set.";
 
 fn field(a_empty: bool, b_empty: bool, eq: bool, ra: bool, rb: bool) -> bool {
     (ra && a_empty) || (rb && b_empty) || eq
